@@ -398,6 +398,13 @@ pub struct ABuilt {
     _scratch: Vec<Scratch>,
 }
 
+impl ABuilt {
+    /// host directories `<scratch>/outer` of the physical bases (their roots are `outer/root`)
+    pub fn phys_outer_dirs(&self) -> Vec<std::path::PathBuf> {
+        self._scratch.iter().map(|s| s.path.join("outer")).collect()
+    }
+}
+
 #[derive(Debug)]
 struct SharedAsync(Arc<dyn AsyncFileSystem>);
 
